@@ -68,6 +68,28 @@ var (
 	wsCloseGuard = 300 * time.Millisecond
 )
 
+// Timeouts are inconclusive, so shortening the watchdog can only turn a slow case into a
+// discard, never into a violation. The first timeout of a process gets the full watchdog;
+// repeated timeouts are systematic (a hang, not a hiccup), so later ones are cut short and
+// after timeoutBudget of them the remaining cases of the process are discarded unrun.
+var (
+	timeoutsSeen  atomic.Int32
+	timeoutBudget = int32(8)
+)
+
+func currentWatchdog() time.Duration {
+	switch n := timeoutsSeen.Load(); {
+	case n == 0:
+		return watchdog
+	case n == 1:
+		return watchdog / 3
+	case n == 2:
+		return watchdog / 10
+	default:
+		return watchdog / 15
+	}
+}
+
 func envDuration(k string, def time.Duration) time.Duration {
 	if v := os.Getenv(k); v != "" {
 		if ms, err := strconv.Atoi(v); err == nil {
@@ -304,6 +326,8 @@ func (r *run) checkRecv(st *clientState, where string, res Res, err error) {
 		switch {
 		case st.nGot < k && r.slowWS(), !r.kind.check(err) && r.slowWS():
 			r.rep.Class("ws-close-deadline-elapsed")
+			fmt.Printf("VERIF-C14 note: discarded (client reached the terminal result %v after the handler returned, beyond the websocket close deadline guard): %s: got %d/%d responses, terminal %q, handler returned %s\n",
+				time.Since(time.Unix(0, r.hRetAt.Load())).Round(time.Millisecond), where, st.nGot, k, err, r.kind.name)
 			r.discardCase("ws-close-deadline")
 		case !hRet:
 			r.fail("spurious-terminal", "%s: client's Receive returned %q (%s) after %d of %d responses while the handler had not returned", where, err, shortErr(err), st.nGot, k)
@@ -482,6 +506,11 @@ func (tp *transport) execute(sc Script, rep *kit.Report) error {
 		rep.Discard("ill-formed")
 		return nil
 	}
+	if timeoutsSeen.Load() >= timeoutBudget {
+		rep.Discard("timeout-budget-exhausted")
+		return nil
+	}
+	wd := currentWatchdog()
 	tp.setup.Do(func() {
 		if tp.init != nil {
 			tp.initErr = tp.init(tp)
@@ -566,7 +595,8 @@ func (tp *transport) execute(sc Script, rep *kit.Report) error {
 			return nil
 		}
 		stream = o.s
-	case <-time.After(watchdog):
+	case <-time.After(wd):
+		timeoutsSeen.Add(1)
 		rep.Class("timeout")
 		rep.Discard("timeout-open")
 		cancel()
@@ -608,7 +638,8 @@ func (tp *transport) execute(sc Script, rep *kit.Report) error {
 			case r.inRepeat.Load() && stalled > int(repeatWatchdog/tickEvery):
 				r.fail("terminal-repeat-blocks", "a Receive call made after the client had already received the terminal result did not return within %v (handler returned %s)", repeatWatchdog, r.kind.name)
 				stalled = 0
-			case stalled > int(watchdog/tickEvery):
+			case stalled > int(wd/tickEvery):
+				timeoutsSeen.Add(1)
 				rep.Class("timeout")
 				if r.hRetAt.Load() != 0 {
 					rep.Class("timeout-after-handler-return")
